@@ -17,6 +17,7 @@ from .kernel import H, Sim, Violation
 from .scenarios import BaseScenario
 from .snapshot import ustr
 
+KEYLIKE_NAMES = ["Data", "values", "Float", "Object", "surveys", "Trace"]
 DATA_NAMES = ["au", "cu", "lith", "a/b", "zn", "rock é", "au"]   # 'au' twice: names are shared between holes
 PG_NAMES = [None, None, "tabA", "tabB"]
 PROTECTED = ("DEPTH", "FROM", "TO")
@@ -365,6 +366,8 @@ class ConcatScenario(BaseScenario):
         n = r.choice([0, 1, 2, 3, 5])
         dk = r.choice(["float", "float", "text", "referenced"])
         name = r.choice(DATA_NAMES)
+        if not w.cfg.get("avoid_known") and r.random() < 0.04:
+            name = r.choice(KEYLIKE_NAMES)     # a data name that is also a key of the format (known finding)
         if w.cfg.get("avoid_known"):
             # one primitive type per data name across holes (known finding: mixed types under one name corrupt the shared array)
             dk = {"au": "float", "cu": "float", "lith": "text", "a/b": "float", "zn": "referenced", "rock é": "text"}[name]
@@ -552,9 +555,26 @@ class ConcatScenario(BaseScenario):
                     # oracle sees afterwards, in whichever check, derives from that and is attributed to C04
                     vio.discr["mixed_types"] = True
                     vio.prop = "C04"
+                if getattr(w, "keylike", False):
+                    vio.discr["keylike_name"] = True
+                    vio.prop = "C04"
                 violation = {"prop": vio.prop, "tag": vio.tag, "detail": vio.detail, "discr": vio.discr, "event": sim.events}
                 sim.record("violation", vio.prop, vio.tag, vio.discr)
                 status = "violation" if vio.prop == self.prop else "foreign"
+            except Exception as err:  # pylint: disable=broad-except
+                if not getattr(w, "keylike", False):
+                    raise
+                # the machine's own reads and re-opens fail on a store holding such a name: part of the same finding
+                violation = {"prop": "C04", "tag": "store_unusable", "detail": f"after a data set was named like a key of the format: {type(err).__name__}: {str(err)[:120]}",
+                             "discr": {"keylike_name": True, "exc": type(err).__name__}, "event": sim.events}
+                sim.record("violation", "C04", "store_unusable", violation["discr"])
+                status = "violation" if self.prop == "C04" else "foreign"
+            if w.suspect and status == "ok" and getattr(w, "keylike", False):
+                violation = {"prop": "C04", "tag": "store_unusable", "detail": f"after a data set was named like a key of the format: {w.suspect[:160]}",
+                             "discr": {"keylike_name": True}, "event": sim.events}
+                sim.record("violation", "C04", "store_unusable", violation["discr"])
+                status = "violation" if self.prop == "C04" else "foreign"
+                w.suspect = None
             if w.suspect and status == "ok" and w.mixed:
                 sim.probe("exception_after_mixed_types")      # same attribution for unexpected exceptions
             elif w.suspect and status == "ok":
@@ -756,6 +776,8 @@ class ConcatScenario(BaseScenario):
             w.sim.probe("same_name_two_holes")
         if (g, name) in w.removed_labels:
             w.sim.probe("rm_middle_then_readd")
+        if name in KEYLIKE_NAMES:
+            w.keylike = True     # the store maps the label through the format's key table: anything may follow (known finding)
         prev = w.label_dk.setdefault((g, name), dk)
         if prev != dk:
             w.mixed = True   # one label, two primitive types (at once or one after the other): the shared array is coerced (known finding)
